@@ -14,6 +14,7 @@ package revocation
 import (
 	"errors"
 	"fmt"
+	"github.com/privacybydesign/gabi/big"
 	"testing"
 	"time"
 
@@ -260,4 +261,117 @@ func c09Explore(r *vkit.Report, world *rvWorld, H int, c1 c09Wit, c2 *c09Wit, sh
 	}
 	rec()
 	r.Sample(map[string]any{"H": H, "w1": fmt.Sprintf("%+v", c1), "w2": fmt.Sprint(c2), "shared": shared, "windows": len(wins), "depth": depth})
+}
+
+// TestVerifC09LongChain: one long history (40 revocations, thorough 100): anything that depends on the
+// number of events (fixed-size buffers, thresholds, caches keyed by position) must behave for long
+// chains as it does for the short ones explored exhaustively.  Witnesses issued at several indices are
+// brought to the end by one update, by two halves, by single steps and by overlapping windows.
+func TestVerifC09LongChain(t *testing.T) {
+	r := vkit.Start(t, "C09", "long-chain", 120*time.Second, 600*time.Second)
+	defer r.Finish()
+	H := vkit.Pick(40, 100)
+	r.Rule = fmt.Sprintf("one history of %d revocations; witnesses issued at indices {0,1,H/3,H/2,H-1}, non-revoked or revoked at {issue+1, H/2+1, H}; routes to the end: one window, two halves (every cut in {1,16,17,31,32,33,H-1}), single steps, overlapping windows of length 7 with stride 3; non-trivial = distinct (issue index, revocation, route); oracle: non-revoked => every update succeeds and the witness verifies against accumulator H; revoked => the update containing the revocation reports ErrorRevoked and the witness stays valid for the last accumulator before it", H)
+	rvInstallEnv(t, "C09long", r.Seed)
+	sk, pk := rvKeys(32, 0)
+	// H+1 distinct primes (rvPrime only has 16)
+	var es []*big.Int
+	for c := int64(20001); len(es) < H+1; c += 2 {
+		if big.NewInt(c).ProbablyPrime(20) {
+			es = append(es, big.NewInt(c))
+		}
+	}
+	mine0 := es[H]
+	es = es[:H]
+	for _, issue := range []int{0, 1, H / 3, H / 2, H - 1} {
+		for _, rev := range []int{0, issue + 1, H/2 + 1, H} {
+			if rev != 0 && rev <= issue {
+				continue
+			}
+			if _, mine := r.Next(); !mine {
+				continue
+			}
+			// the witness value is revoked at history position rev (1-based), or never
+			list := append([]*big.Int{}, es...)
+			if rev != 0 {
+				list[rev-1] = mine0
+			}
+			world := rvNewWorld(sk, pk, list)
+			routes := map[string][][2]int{}
+			order := []string{}
+			add := func(name string, wins [][2]int) { routes[name] = wins; order = append(order, name) }
+			add("one window", [][2]int{{issue + 1, H}})
+			for _, cut := range []int{1, 16, 17, 31, 32, 33, H - 1} {
+				if cut > issue && cut < H {
+					add(fmt.Sprintf("two halves cut at %d", cut), [][2]int{{issue + 1, cut}, {cut + 1, H}})
+				}
+			}
+			var steps, overl [][2]int
+			for i := issue + 1; i <= H; i++ {
+				steps = append(steps, [2]int{i, i})
+			}
+			for a := issue + 1; a <= H; a += 3 {
+				b := a + 6
+				if b > H {
+					b = H
+				}
+				overl = append(overl, [2]int{a, b})
+			}
+			add("single steps", steps)
+			add("overlapping windows", overl)
+			for _, name := range order {
+				r.Eval()
+				desc := fmt.Sprintf("H=%d issue=%d revoked-at=%d route=%s", H, issue, rev, name)
+				r.Nontrivial(desc)
+				w := world.Witness(issue, mine0)
+				reported := false
+				bad := ""
+				for _, win := range routes[name] {
+					a, b := win[0], win[1]
+					if a > b {
+						continue
+					}
+					before := int(w.SignedAccumulator.Accumulator.Index)
+					err := w.Update(pk, world.Window(a, b, 0))
+					switch {
+					case a > before+1:
+						// a gap between the witness and the window (only after a reported revocation): refused
+						if err == nil {
+							bad = fmt.Sprintf("window %d..%d accepted by a witness at index %d", a, b, before)
+						}
+					case rev != 0 && rev >= a && rev <= b && int(w.SignedAccumulator.Accumulator.Index) < rev:
+						if err != ErrorRevoked {
+							bad = fmt.Sprintf("window %d..%d contains the revocation: got %v", a, b, err)
+						}
+						reported = true
+					case reported:
+						// after the revocation was reported nothing may bring the witness forward
+						if err == nil && int(w.SignedAccumulator.Accumulator.Index) >= rev {
+							bad = fmt.Sprintf("window %d..%d moved a revoked witness to index %d", a, b, w.SignedAccumulator.Accumulator.Index)
+						}
+					case err != nil:
+						bad = fmt.Sprintf("window %d..%d: %v", a, b, err)
+					}
+					if bad != "" {
+						break
+					}
+				}
+				idx := int(w.SignedAccumulator.Accumulator.Index)
+				if bad == "" {
+					switch {
+					case rev == 0 && idx != H:
+						bad = fmt.Sprintf("witness ended at index %d, want %d", idx, H)
+					case rev != 0 && idx >= rev:
+						bad = fmt.Sprintf("revoked witness ended at index %d (revoked at %d)", idx, rev)
+					case w.Verify(pk) != nil:
+						bad = fmt.Sprintf("witness does not verify at the index it reports (%d)", idx)
+					}
+				}
+				r.Outcome(fmt.Sprintf("route=%s:revoked=%v:ok=%v", name[:3], rev != 0, bad == ""))
+				if bad != "" {
+					r.Violate("C09|long-chain|"+map[bool]string{true: "revoked", false: "valid"}[rev != 0]+"-witness-mishandled", desc+": "+bad, desc)
+				}
+			}
+		}
+	}
 }
